@@ -497,6 +497,7 @@ class InterpMachine(Machine):
         self.nFiles = 0
         self.justUpdated = False
         self.traced = False
+        self.buffers: dict = {}
 
     def _newObject(self, adaptive: bool) -> Any:
         obj = self.cls(self.body, self.ctl, adaptive, self.cfg["n0"])
@@ -580,6 +581,11 @@ class InterpMachine(Machine):
                                                         "knot"]), order)
             return self._drawPoint(rng, place, order)
 
+        if form == "1d" and self.provider == "stub" and rng.random() < 0.04:
+            # a large unsorted array, described by its seed (kept out of the log)
+            return "big", {"n": rng.choice([1000, 1500, 3000]), "seed": rng.randrange(10**6),
+                           "lo": self._drawPoint(rng, "below" if place != "inside" else "inside"),
+                           "hi": self._drawPoint(rng, "above" if place != "inside" else "inside")}, place
         if form in ("float", "0d"):
             return form, one(), place
         if form == "empty":
@@ -615,8 +621,12 @@ class InterpMachine(Machine):
                     "n": rng.choice([2, 3, 4, 5, 8, 12, 20, 40])}
         if op == "evaluate":
             form, x, place = self._drawX(rng)
-            return {"op": op, "form": form, "x": x, "place": place,
+            step = {"op": op, "form": form, "x": x, "place": place,
                     "interp": rng.random() < 0.85}
+            if form in ("1d", "2d") and rng.random() < 0.3:
+                # the caller keeps ONE ndarray and overwrites it in place between calls
+                step["reuse"] = True
+            return step
         if op == "derivative":
             order = rng.choice([1, 2])
             form, x, place = self._drawX(rng, order)
@@ -666,7 +676,7 @@ class InterpMachine(Machine):
 
     def simplerSteps(self, step: dict):
         op = step["op"]
-        if op in ("evaluate", "derivative", "schedule"):
+        if op in ("evaluate", "derivative", "schedule") and step["form"] != "big":
             x = step["x"]
             if step["form"] == "2d":
                 flat = [v for row in x for v in row]
@@ -719,6 +729,19 @@ class InterpMachine(Machine):
     # -- helpers
     def _x(self, step: dict) -> Any:
         form, x = step["form"], step["x"]
+        if form == "big":
+            rng = np.random.default_rng(int(x["seed"]))
+            lo, hi = sorted((float(x["lo"]), float(x["hi"])))
+            return rng.uniform(lo, hi if hi > lo else lo + 1.0, int(x["n"]))
+        if step.get("reuse") and form in ("1d", "2d"):
+            new = np.array(x, dtype=float)
+            buf = self.buffers.get(new.shape)
+            if buf is None:
+                self.buffers[new.shape] = new
+                return new
+            buf[...] = new  # same object, new contents
+            self.ctx.probes["caller_array_overwritten_in_place"] += 1
+            return buf
         if form == "float":
             return float(x)
         if form == "0d":
